@@ -192,6 +192,37 @@ func (p *Prog) staticLen(f *Fn, e ast.Expr, depth int) (int64, bool) {
 		if len(defs) == 1 {
 			return p.staticLen(f, defs[0], depth+1)
 		}
+		// several definitions: those textually before the use count, provided no loop contains the use and a later one
+		if p.lenUse != token.NoPos && len(defs) > 1 {
+			var before []ast.Expr
+			laterInLoop := false
+			for _, d := range defs {
+				if d.Pos() < p.lenUse {
+					before = append(before, d)
+					continue
+				}
+				ast.Inspect(f.Decl.Body, func(n ast.Node) bool {
+					switch n.(type) {
+					case *ast.ForStmt, *ast.RangeStmt:
+						if n.Pos() <= p.lenUse && p.lenUse <= n.End() && n.Pos() <= d.Pos() && d.End() <= n.End() {
+							laterInLoop = true
+						}
+					}
+					return true
+				})
+			}
+			if !laterInLoop && len(before) > 0 {
+				var n0 int64
+				for i, d := range before {
+					n, ok := p.staticLen(f, d, depth+1)
+					if !ok || (i > 0 && n != n0) {
+						return 0, false
+					}
+					n0 = n
+				}
+				return n0, true
+			}
+		}
 	case *ast.SliceExpr:
 		// x[a:b] with constant bounds
 		if x.High != nil {
@@ -412,6 +443,8 @@ func (p *Prog) madeWith(f *Fn, x ast.Expr, bound ast.Expr) bool {
 // DischargeIndexSlice tries the structural discharge rules for an index or slice operation.
 func (p *Prog) DischargeIndexSlice(o PCO) (bool, string) {
 	f := o.Fn
+	p.lenUse = o.Node.Pos()
+	defer func() { p.lenUse = token.NoPos }()
 	switch x := o.Node.(type) {
 	case *ast.IndexExpr:
 		if k, ok := constIntOf(f, x.Index); ok {
@@ -457,6 +490,35 @@ func (p *Prog) DischargeIndexSlice(o PCO) (bool, string) {
 		}
 		return false, ""
 	case *ast.SliceExpr:
+		// x[:i] / x[i+1:] / x[i:] where i is the key of an enclosing range over x: 0 ≤ i < len(x)
+		if x.Max == nil && (x.Low == nil) != (x.High == nil) {
+			b := x.Low
+			if b == nil {
+				b = x.High
+			}
+			idx := Unparen(b)
+			plus := int64(0)
+			if be, ok := idx.(*ast.BinaryExpr); ok && be.Op == token.ADD {
+				if k, isC := constIntOf(f, be.Y); isC {
+					idx, plus = Unparen(be.X), k
+				}
+			}
+			if plus >= 0 && plus <= 1 {
+				for _, a := range PathTo(f.Decl.Body, x) {
+					if rs, ok := a.(*ast.RangeStmt); ok && rs.Key != nil && ObjOf(f.Pkg, rs.Key) != nil && ObjOf(f.Pkg, rs.Key) == ObjOf(f.Pkg, idx) && SameExpr(f.Pkg, rs.X, x.X) {
+						return true, "slice bound is the key of the enclosing range over the same slice"
+					}
+					if fs, ok := a.(*ast.ForStmt); ok {
+						// for i := range x (as ForStmt in older syntax is not produced); classic: for i := 0; i < len(x); i++
+						if cond, isB := fs.Cond.(*ast.BinaryExpr); isB && cond.Op == token.LSS && ObjOf(f.Pkg, cond.X) != nil && ObjOf(f.Pkg, cond.X) == ObjOf(f.Pkg, idx) {
+							if call, isC := Unparen(cond.Y).(*ast.CallExpr); isC && len(call.Args) == 1 && ExprString(call.Fun) == "len" && SameExpr(f.Pkg, call.Args[0], x.X) {
+								return true, "slice bound is a loop index below the length of the same slice"
+							}
+						}
+					}
+				}
+			}
+		}
 		n, haveN := p.staticLen(f, x.X, 0)
 		lb, haveLB := lenLowerBound(f, x, x.X)
 		okAll := true
@@ -585,7 +647,8 @@ func (p *Prog) valueBounds(f *Fn, n ast.Node, e ast.Expr, depth int) (lo, hi int
 	}
 	if id, ok := Unparen(e).(*ast.Ident); ok {
 		if obj := ObjOf(f.Pkg, id); obj != nil {
-			if defs := DefsOf(f, obj); len(defs) == 1 {
+			defs := DefsOf(f, obj)
+			if len(defs) == 1 {
 				l2, h2, a, b := p.valueBounds(f, n, defs[0], depth+1)
 				if !haveLo && a {
 					lo, haveLo = l2, true
@@ -593,8 +656,79 @@ func (p *Prog) valueBounds(f *Fn, n ast.Node, e ast.Expr, depth int) (lo, hi int
 				if !haveHi && b {
 					hi, haveHi = h2, true
 				}
+			} else if len(defs) > 1 && !isUpdated(f, obj) {
+				// a local that only ever holds one of a few constants
+				all := true
+				var mn, mx int64
+				for i, d := range defs {
+					k, isC := constIntOf(f, d)
+					if !isC {
+						all = false
+						break
+					}
+					if i == 0 || k < mn {
+						mn = k
+					}
+					if i == 0 || k > mx {
+						mx = k
+					}
+				}
+				if all {
+					if !haveLo {
+						lo, haveLo = mn, true
+					}
+					if !haveHi {
+						hi, haveHi = mx, true
+					}
+				}
+			}
+		}
+	}
+	if be, ok := Unparen(e).(*ast.BinaryExpr); ok && (be.Op == token.SUB || be.Op == token.ADD) {
+		al, ah, a1, a2 := p.valueBounds(f, n, be.X, depth+1)
+		bl, bh, b1, b2 := p.valueBounds(f, n, be.Y, depth+1)
+		if be.Op == token.ADD {
+			if !haveLo && a1 && b1 {
+				lo, haveLo = al+bl, true
+			}
+			if !haveHi && a2 && b2 {
+				hi, haveHi = ah+bh, true
+			}
+		} else {
+			if !haveLo && a1 && b2 {
+				lo, haveLo = al-bh, true
+			}
+			if !haveHi && a2 && b1 {
+				hi, haveHi = ah-bl, true
 			}
 		}
 	}
 	return
+}
+
+// isUpdated: is the variable modified other than by plain assignment of a value (x++, x += …, &x)?
+func isUpdated(f *Fn, obj types.Object) bool {
+	upd := false
+	ast.Inspect(f.Decl.Body, func(n ast.Node) bool {
+		switch x := n.(type) {
+		case *ast.IncDecStmt:
+			if ObjOf(f.Pkg, x.X) == obj {
+				upd = true
+			}
+		case *ast.AssignStmt:
+			if x.Tok != token.ASSIGN && x.Tok != token.DEFINE {
+				for _, l := range x.Lhs {
+					if ObjOf(f.Pkg, l) == obj {
+						upd = true
+					}
+				}
+			}
+		case *ast.UnaryExpr:
+			if x.Op == token.AND && ObjOf(f.Pkg, x.X) == obj {
+				upd = true
+			}
+		}
+		return true
+	})
+	return upd
 }
